@@ -107,6 +107,46 @@ class Ctx:
         if sequences:
             self.history_independence(sequences, ref, clause="result-depends-on-earlier-calls")
 
+    def json_lexical(self, docs):
+        """documents (bytes) whose reading by serde_json is compared with Model/JsonText.v in auto_jsontext_check (all of them,
+        not a sample)"""
+        docs = [d for d in dict.fromkeys(docs)]
+        res = self.harness([("json.dump", d) for d in docs])
+        self.__dict__.setdefault("_json_must", {}).update(dict(zip(docs, res)))
+        return res
+
+    def auto_jsontext_check(self, sample=250, max_len=20000):
+        """Generic correspondence clause for Model/JsonText.v, run after every generator: a sample of the JSON documents this
+        run handed to serde_json (`json.dump` harness calls: what serde_json::from_slice makes of the bytes, as a
+        serde_json::Value) is parsed by the Gallina parser (evaluated by coqc) and the two views are compared: accepted /
+        refused, structure, member order and duplicate resolution, string contents, integers exactly; a literal that goes
+        through serde_json's floating-point reader must come back as a double within 2 ulp of the exact decimal value
+        the model keeps (out of the double range: refused)."""
+        rec = self.__dict__.get("_recorded", {}).get("json.dump", [])
+        uniq = {}
+        for c, x in rec:
+            d = c[1] if isinstance(c[1], (bytes, bytearray)) else c[1].encode("utf8")
+            if len(d) <= max_len and x.tag in ("ok", "err"):
+                uniq[bytes(d)] = x
+        must = {d: x for d, x in self.__dict__.get("_json_must", {}).items() if len(d) <= max_len and x.tag in ("ok", "err")}
+        keys = sorted(set(uniq) - set(must))
+        docs = list(must) + self.rng.sample(keys, min(sample, len(keys)))
+        if not docs:
+            return
+        uniq.update(must)
+        from coqrun import pb
+        from gen.util import short
+        outs = self.model(["c_json_dump %s" % pb(d) for d in docs], label=self.prop + "json", driver="Json", timeout=900)
+        for d, m in zip(docs, outs):
+            r = uniq[d]
+            self.count("json-text-vs-model")
+            if m is None:
+                continue  # reported as a model-evaluation failure
+            case = dict(op="serde_json::from_slice::<Value>", document=short(d.decode("utf8", "backslashreplace"), 300), document_hex=short(d, 200))
+            verdict = json_views_agree(r, m)
+            if verdict is not None:
+                self.violation("json-text-vs-model", case, verdict[0], verdict[1])
+
     def harness_sequences(self, sequences, release=False, timeout=120):
         """sequences: list of lists of calls. Each sequence is executed IN ORDER by ONE process on ONE thread (state carried
         from one call to the next — caches, reused buffers, memoised results — shows); different sequences run in parallel.
@@ -277,6 +317,82 @@ class Ctx:
         self.violations.append(rec)
 
 
+def _float_range(mant, exp10):
+    """'in' | 'out' | 'edge' (within a relative 2^-50 of the largest double: serde_json's reader may or may not overflow)"""
+    from fractions import Fraction
+    if mant == 0:
+        return "in"
+    nd = len(str(mant))
+    if exp10 + nd > 320:
+        return "out"
+    if exp10 + nd < 300:
+        return "in"
+    x = Fraction(mant) * (Fraction(10) ** exp10)
+    top = Fraction(2) ** 1024
+    if x >= top * (1 + Fraction(1, 1 << 50)):
+        return "out"
+    if x >= top * (1 - Fraction(1, 1 << 50)):
+        return "edge"
+    return "in"
+
+
+def _float_token_ok(neg, mant, exp10, bits):
+    """is the double with these bits within 2 ulp of (-1)^neg * mant * 10^exp10 (which is in range)?"""
+    from fractions import Fraction
+    sign = bits >> 63
+    e = (bits >> 52) & 0x7FF
+    f = bits & ((1 << 52) - 1)
+    if e == 0x7FF or sign != (1 if neg else 0):
+        return False
+    if mant == 0:
+        return e == 0 and f == 0
+    nd = len(str(mant))
+    if exp10 + nd < -340:
+        return e == 0 and f == 0
+    x = Fraction(mant) * (Fraction(10) ** exp10)
+    h = Fraction(f, 1) * Fraction(2) ** -1074 if e == 0 else Fraction(f | (1 << 52)) * Fraction(2) ** (e - 1075)
+    ulp = Fraction(2) ** (-1074 if e == 0 else e - 1075)
+    return abs(h - x) <= 2 * ulp
+
+
+def json_views_agree(r, m):
+    """r: harness json.dump result; m: ModelOut of c_json_dump.  None if they agree, else (expected, observed)."""
+    import re
+    if m.tag not in ("ok", "err"):
+        return ("the model parser terminates with a value or an error", "model outcome %s" % m.tag)
+    md = m.fields[0].decode("ascii") if m.tag == "ok" else None
+    floats = [(g.group(1) == "-", int(g.group(2)), int(g.group(3))) for g in re.finditer(r"D(-?)(\d+)e(-?\d+);", md)] if md else []
+    if r.tag == "err":
+        if m.tag == "err":
+            return None
+        # accepted by the model: fine only if some floating-point literal is out of the double range
+        if any(_float_range(mt, ex) != "in" for ng, mt, ex in floats):
+            return None
+        return ("model: one JSON document, " + md[:200], "refused: " + r.msg[:160])
+    hd = r.fields[0].decode("ascii")
+    if m.tag == "err":
+        return ("model: not one JSON document (refused)", "accepted: " + hd[:200])
+    pieces = re.split(r"D-?\d+e-?\d+;", md)
+    pos = 0
+    for i, piece in enumerate(pieces):
+        if not hd.startswith(piece, pos):
+            return ("model view " + md[:300], "serde_json view " + hd[:300])
+        pos += len(piece)
+        if i < len(floats):
+            tok = hd[pos:pos + 17]
+            if not re.fullmatch(r"d[0-9a-f]{16}", tok):
+                return ("model view " + md[:300], "serde_json view " + hd[:300])
+            rg = _float_range(floats[i][1], floats[i][2])
+            if rg == "out":
+                return ("refused: literal out of the double range", "double with bits %s" % tok[1:])
+            if not _float_token_ok(floats[i][0], floats[i][1], floats[i][2], int(tok[1:], 16)):
+                return ("a double within 2 ulp of %s%de%d" % ("-" if floats[i][0] else "", floats[i][1], floats[i][2]), "double with bits %s" % tok[1:])
+            pos += 17
+    if pos != len(hd):
+        return ("model view " + md[:300], "serde_json view " + hd[:300])
+    return None
+
+
 def hash_str(s):
     h = 0
     for c in s:
@@ -352,6 +468,7 @@ def main():
         else:
             mod.run(ctx)
             ctx.auto_history_check()
+            ctx.auto_jsontext_check()
             ctx.auto_ambient_check()
     except Exception:
         tb = traceback.format_exc()
